@@ -348,6 +348,11 @@ func (c *Client) SendProtobufParallelWithDecoder(nodes []*network.ServerIdentity
 
 	parallel, nodesChan := opt.GetList(nodes)
 	nodesNbr := len(nodesChan)
+	if nodesNbr == 0 {
+		// Nobody to ask (no node given, or all of them ignored): that is an
+		// error for the caller, there is no first error to hand back.
+		return nil, xerrors.New("no node to ask")
+	}
 	errChan := make(chan error, nodesNbr)
 	decodedChan := make(chan *network.ServerIdentity, 1)
 	var decoding sync.Mutex
